@@ -92,6 +92,9 @@ TRANSPARENT = [
 ]
 _TRANSPARENT_RE = re.compile("|".join("(?:%s)" % p for p in TRANSPARENT))
 
+# value is one of the two arguments
+_UNION_ARGS_RE = re.compile(r"^(std::option::Option::unwrap_or|std::result::Result::unwrap_or)$")
+
 # api.addr_validate(x) / addr_canonicalize(x) / addr_humanize(x): value is arg 1.
 TRANSPARENT_ARG1 = re.compile(
     r"(?:<.* as cosmwasm_std::Api>::addr_\w+|cosmwasm_std::Api::addr_\w+)$")
@@ -157,6 +160,7 @@ class FnView:
         self._reach0 = None
         self._origin_cache = {}
         self._rs = {}
+        self._wd = {}
 
     # -- CFG ---------------------------------------------------------------------------
     def succs(self, b):
@@ -244,6 +248,51 @@ class FnView:
         if db == ub and di < ui:
             return True
         return ub in self.reach_strict(db)
+
+    def whole_defs(self, l):
+        """Sites (block, idx) where local l is assigned as a whole (no projection on the lhs)."""
+        r = self._wd.get(l)
+        if r is None:
+            r = []
+            for d in self.defs().get(l, []):
+                if d[0] == "s":
+                    if not d[3]["lhs"]["p"]:
+                        r.append((d[1], d[2]))
+                else:
+                    if not d[2]["dest"]["p"]:
+                        r.append((d[1], len(self.blocks[d[1]]["s"])))
+            self._wd[l] = r
+        return r
+
+    def def_reaches_killing(self, l, db, di, at):
+        """Reaching-definition test with kills: the definition of (part of) local l at (db, di) reaches the
+        use at `at` along some path on which l is not re-assigned as a whole."""
+        if at is None:
+            return True
+        ub, ui = at
+        kills = [(kb, ki) for kb, ki in self.whole_defs(l) if (kb, ki) != (db, di)]
+        if not kills:
+            return self.def_reaches(db, di, at)
+        if db == ub and di < ui and not any(kb == db and di < ki < ui for kb, ki in kills):
+            return True
+        if any(kb == db and ki > di for kb, ki in kills):
+            return False
+        blocked = {kb for kb, ki in kills if not (kb == ub and ki >= ui)}
+        if ub in blocked:
+            return False
+        seen = set()
+        dq = deque(self.succs(db))
+        while dq:
+            x = dq.popleft()
+            if x in seen:
+                continue
+            seen.add(x)
+            if x == ub:
+                return True
+            if x in blocked:
+                continue
+            dq.extend(self.succs(x))
+        return False
 
     def live_blocks(self):
         if self._reach0 is None:
@@ -399,7 +448,7 @@ class FnView:
             out.add(Origin("param", l, self.path, proj))
         for d in self.defs().get(l, []):
             if d[0] == "s":
-                if not self.def_reaches(d[1], d[2], at):
+                if not self.def_reaches_killing(l, d[1], d[2], at):
                     continue
                 s = d[3]
                 lhs_fields = self._named_fields(s["lhs"]["p"])
@@ -409,7 +458,7 @@ class FnView:
                     continue
                 out |= self._origins_rvalue(s["rv"], rest, taint, visiting, d[1], d[2], (d[1], d[2]))
             else:
-                if not self.def_reaches(d[1], len(self.blocks[d[1]]["s"]), at):
+                if not self.def_reaches_killing(l, d[1], len(self.blocks[d[1]]["s"]), at):
                     continue
                 t = d[2]
                 lhs_fields = self._named_fields(t["dest"]["p"])
@@ -570,6 +619,9 @@ class FnView:
             r = self._vec_macro_elements(t, proj, taint, visiting, at)
             if r:
                 return r
+        if _UNION_ARGS_RE.search(callee) and len(t["args"]) >= 2:
+            return (self._origins_op(t["args"][0], proj, taint, visiting, at)
+                    | self._origins_op(t["args"][1], proj, taint, visiting, at))
         if _TRANSPARENT_RE.search(callee):
             if t["args"]:
                 return self._origins_op(t["args"][0], proj, taint, visiting, at)
